@@ -61,14 +61,15 @@ type cmd struct {
 type recvFn func(stop <-chan struct{}) (v any, ok bool, aborted bool)
 
 type port struct {
-	w      *world
-	name   string
-	isIn   bool
-	send   func(v int, stop <-chan struct{}) (aborted bool) // input ports
-	closeF func()
-	recv   recvFn // output ports
-	lenF   func() int
-	capF   func() int
+	w       *world
+	name    string
+	isIn    bool
+	send    func(v int, stop <-chan struct{}) (aborted bool) // input ports
+	closeF  func()
+	sendNow func(v int) bool // non-blocking send performed by the driver itself (move B)
+	recv    recvFn           // output ports
+	lenF    func() int
+	capF    func() int
 
 	mu      sync.Mutex
 	queue   []cmd
@@ -412,6 +413,19 @@ func (w *world) addInChan(ch chan<- int) {
 			return true
 		}
 	}
+	p.sendNow = func(v int) (ok bool) {
+		defer func() {
+			if recover() != nil { // golem closed the send side (cancel): not judged
+				ok = false
+			}
+		}()
+		select {
+		case ch <- v:
+			return true
+		default:
+			return false
+		}
+	}
 	p.closeF = func() { close(ch) }
 	p.lenF = func() int { return len(ch) }
 	p.capF = func() int { return cap(ch) }
@@ -533,6 +547,26 @@ func (w *world) exec(script []string) {
 			if arg < len(w.ins) && nextIdx[arg] < len(w.c.Inputs[arg]) {
 				w.ins[arg].push(cmd{op: "send", v: w.c.Inputs[arg][nextIdx[arg]]})
 				nextIdx[arg]++
+			}
+		case 'B':
+			// the driver itself sends up to <arg> planned elements on input 0 without blocking: these sends
+			// have completed, in program order, before whatever the driver does next (e.g. cancel)
+			p := w.ins[0]
+			for k := 0; k < arg && nextIdx[0] < len(w.c.Inputs[0]); k++ {
+				v := w.c.Inputs[0][nextIdx[0]]
+				p.mu.Lock()
+				busy := p.pending != "" || len(p.queue) > 0 || p.closeQueued
+				p.mu.Unlock()
+				if busy || !p.sendNow(v) {
+					break
+				}
+				nextIdx[0]++
+				p.mu.Lock()
+				p.issued = append(p.issued, v)
+				p.sent = append(p.sent, v)
+				p.sentSeq = append(p.sentSeq, w.seq.Add(1))
+				p.mu.Unlock()
+				w.log(p.name, "send-now", v)
 			}
 		case 'C':
 			if arg < len(w.ins) {
